@@ -395,6 +395,12 @@ def uf_bytes_sym(eng, name, *args):
     return seq_from_array(arr, ln, "bytes")
 
 
+@spec("len_of", None, "ghost: number of items of an untracked iterable")
+def len_of_sym(eng, lst):
+    from .models import len_of_f, to_val
+    return VInt(len_of_f(to_val(eng, lst)))
+
+
 @spec("elem", None, "ghost: item number j of an untracked iterable")
 def elem_sym(eng, lst, j):
     from .models import elem_f, to_val
